@@ -1895,7 +1895,10 @@ def split_tuples(fn):
                     and all(isinstance(t, ast.Name) for t in st.targets[0].elts):
                 tg = st.targets[0].elts
                 v = st.value
-                if isinstance(v, ast.Tuple) and len(v.elts) == len(tg) and not ({t.id for t in tg} & _names(v)):
+                if isinstance(v, ast.Tuple) and len(v.elts) == len(tg) and len({t.id for t in tg}) == len(tg) and all(
+                        tg[i].id not in _names(v.elts[j]) for i in range(len(tg)) for j in range(i + 1, len(tg))):
+                    # no value reads a name bound to its left: one after the other is the same as all at once
+                    # (`times, S = times[n:], S[n:]`)
                     for t, e in zip(tg, v.elts):
                         new.append(ast.copy_location(ast.Assign(targets=[t], value=e), st))
                     continue
